@@ -4,7 +4,7 @@
    Graphs are adjacency lists (node i -> list of successors, with multiplicity), nodes are
    natural numbers, the Go value -1 is [None].  All statements are for EVERY graph and root. *)
 From Coq Require Import List Arith.
-From MM Require Import Base.GDGraph Spec.Dom Model.Dom Proofs.DomSpec Proofs.DomModel Proofs.DomFrontier.
+From MM Require Import Base.GDGraph Spec.Dom Model.Dom Proofs.DomSpec Proofs.DomModel Proofs.DomFrontier Proofs.DomDFS Proofs.DomCHK.
 Import ListNotations.
 
 (* ---- the specification oracle (what the Go results are compared with) ---- *)
@@ -82,10 +82,7 @@ Theorem C19_make_bigraph : forall g, wf g ->
   exists insl, mk_ins g = Ok insl /\ length insl = length g /\
     forall b, b < length g ->
       exists ps, nth_error insl b = Some ps /\ length ps = indeg g b /\ forall p, In p ps <-> In b (succs g p).
-Proof.
-  intros g Hwf. destruct (mk_ins_spec g Hwf) as [insl [E [Hl Hn]]]. exists insl. split; [exact E|]. split; [exact Hl|].
-  intros b Hb. exists (ins_spec g b). split; [exact (Hn b Hb)|]. split; [apply ins_spec_length | intros p; apply ins_spec_In].
-Qed.
+Proof. exact make_bigraph_spec. Qed.
 Print Assumptions C19_make_bigraph.
 
 (* DomFrontier given the correct idom: on every well-formed graph (unreachable nodes, self-loops,
@@ -115,14 +112,54 @@ Theorem C19_chk_fixed_point_sound : forall g r fuel insl poNum idom,
 Proof. exact chk_fixed_point_sound. Qed.
 Print Assumptions C19_chk_fixed_point_sound.
 
+(* ---- PostOrder (order.go:31-47) as used by IDom ---- *)
+(* with fuel > V the model of PostOrder never panics; reversed, it lists exactly the reachable
+   nodes, once each, the root first, every other node after one of its predecessors *)
+Theorem C19_postorder : forall g, wf g -> forall fuel r, r < length g -> length g < fuel ->
+  exists rpo, rpostorder fuel g r = Ok rpo /\
+    NoDup rpo /\ (forall u, In u rpo <-> In u (reach g r)) /\
+    (exists t, rpo = r :: t) /\
+    (forall u, In u rpo -> u <> r -> exists p, before rpo p u /\ In u (succs g p)).
+Proof. exact rpostorder_spec. Qed.
+Print Assumptions C19_postorder.
+
+(* ---- IDom = idom_spec, for every graph and root ---- *)
+(* On EVERY well-formed graph (unreachable nodes, self-loops, parallel edges, irreducible loops
+   included) and every root, with fuel >= (V+1)^2 the model of IDom (Cooper-Harvey-Kennedy as
+   written in dom.go:11-82, on top of PostOrder and MakeBiGraph) returns exactly idom_spec_list:
+   it never panics (no slice index out of range, intersect never follows a -1 link and always
+   meets), it terminates (at most V*V+1 sweeps), and the value is the closest strict dominator
+   of every reachable node other than the root and -1 elsewhere. *)
+Theorem C19_idom_chk_total : forall g r fuel, wf g -> r < length g ->
+  (length g + 1) * (length g + 1) <= fuel ->
+  idom_chk fuel g r = Ok (idom_spec_list g r).
+Proof. exact chk_total. Qed.
+Print Assumptions C19_idom_chk_total.
+
+(* ---- the three API functions together ---- *)
+(* IDom, then DomFrontier and Dom on its result: none panics or diverges, and the results are the
+   specification (frontiers up to the root carve-out, child lists = inversion of IDom). *)
+Theorem C19_idom_dom_frontier_end_to_end : forall g r fuel, wf g -> r < length g ->
+  (length g + 1) * (length g + 1) <= fuel ->
+  exists idom df ch,
+    idom_chk fuel g r = Ok idom /\ idom = idom_spec_list g r /\
+    dom_frontier fuel g r idom = Ok df /\ length df = length g /\
+    (forall x, x < length g -> exists c, nth_error df x = Some c /\
+       forall y, In y c <-> (In y (df_spec g r x) /\ ~ (y = r /\ indeg g r = 1))) /\
+    dom_children idom = Ok ch /\ length ch = length g /\
+    (forall i, i < length g -> exists c, nth_error ch i = Some c /\
+       forall j, In j c <-> idom_spec g r j = Some i /\ j < length g).
+Proof. exact idom_dom_frontier_end_to_end. Qed.
+Print Assumptions C19_idom_dom_frontier_end_to_end.
+
 (* ---- non-vacuity: Cooper-Harvey-Kennedy's irreducible example (their figure 4, nodes renumbered
    5->0 .. 1->4), with an unreachable node 5 feeding the join 4 and a self-loop on 3 ---- *)
 Definition ex_g : graph := [[1; 2]; [4]; [3]; [4; 3]; [3]; [4; 5]].
 Example C19_example :
   idom_spec_list ex_g 0 = [None; Some 0; Some 0; Some 0; Some 0; None] /\
-  idom_chk 16 ex_g 0 = Ok (idom_spec_list ex_g 0) /\
+  idom_chk 49 ex_g 0 = Ok (idom_spec_list ex_g 0) /\
   map (df_spec ex_g 0) [0; 1; 2; 3; 4; 5] = [[]; [4]; [3]; [4; 3]; [3]; []] /\
-  dom_frontier 16 ex_g 0 (idom_spec_list ex_g 0) = Ok [[]; [4]; [3]; [3; 4]; [3]; []] /\
+  dom_frontier 49 ex_g 0 (idom_spec_list ex_g 0) = Ok [[]; [4]; [3]; [3; 4]; [3]; []] /\
   dom_children (idom_spec_list ex_g 0) = Ok [[1; 2; 3; 4]; []; []; []; []; []] /\
   dominatesb ex_g 0 0 4 = true /\ dominatesb ex_g 0 1 4 = false /\ dominatesb ex_g 0 5 4 = false.
 Proof. vm_compute. repeat split; reflexivity. Qed.
